@@ -52,6 +52,22 @@ def declared_count(n, count):
     return {'right': n, 'large': n + 1, 'small': n - 1, 'none': None}[count]
 
 
+def feed(g, recs, mode, stage=None):
+    """Hand the records to the writer: one writeline() per record, ONE writelines() call with the whole list, or
+    writelines() in blocks of two records."""
+    recs = list(recs)
+    if mode == 'bulk':
+        g.writelines(recs)
+    elif mode == 'blocks':
+        for i in range(0, len(recs), 2):
+            g.writelines(recs[i:i + 2])
+    else:
+        for j, r in enumerate(recs):
+            if stage is not None:
+                stage[0] = 'writeline %d' % j
+            g.writeline(r)
+
+
 def run_writer(path, hist, records):
     """Drive the real writer; returns (stage, exception) if it raised, else None."""
     from gaddlemaps.parsers import GroFile
@@ -63,16 +79,16 @@ def run_writer(path, hist, records):
         dec = declared_count(hist['n'], hist['count'])
         if dec is not None:
             g.natoms = dec
-        for j, r in enumerate(records):
-            stage = 'writeline %d' % j
-            g.writeline(r)
+        st = ['feed']
+        stage = st
+        feed(g, records, hist.get('wmode', 'lines'), st)
         stage = 'close'
         g.close()
         return None
     except Exception as e:
         with contextlib.suppress(Exception):
             g._file.close()
-        return stage, e
+        return (stage[0] if isinstance(stage, list) else stage), e
 
 
 def abandoned_image(hist, records, k):
@@ -82,7 +98,7 @@ def abandoned_image(hist, records, k):
     import gaddlemaps.parsers as P
     from gaddlemaps.parsers import GroFile
     store = seams.FileStore()
-    with seams.patched(P, 'open', store.open):
+    with store.installed(P):
         g = GroFile('mem.gro', 'w')
         try:
             g.comment = 'crash images'
@@ -90,8 +106,7 @@ def abandoned_image(hist, records, k):
             dec = declared_count(hist['n'], hist['count'])
             if dec is not None:
                 g.natoms = dec
-            for r in records[:k]:
-                g.writeline(r)
+            feed(g, records[:k], hist.get('wmode', 'lines'))
         except Exception:
             pass
         del g
@@ -111,7 +126,7 @@ def bulk_failed_image(hist, records, k):
             yield r
         raise RuntimeError('record source failed')
     store = seams.FileStore()
-    with seams.patched(P, 'open', store.open):
+    with store.installed(P):
         g = GroFile('mem.gro', 'w')
         try:
             g.comment = 'crash images'
@@ -141,8 +156,7 @@ def read_while_writer_alive(path, hist, records, k):
         dec = declared_count(hist['n'], hist['count'])
         if dec is not None:
             g.natoms = dec
-        for r in records[:k]:
-            g.writeline(r)
+        feed(g, records[:k], hist.get('wmode', 'lines'))
         g._file.flush()
     except Exception:
         pass
@@ -179,8 +193,7 @@ def abandoned_over_existing(path, hist, records, k, complete_text):
         dec = declared_count(hist['n'], hist['count'])
         if dec is not None:
             g.natoms = dec
-        for r in records[:k]:
-            g.writeline(r)
+        feed(g, records[:k], hist.get('wmode', 'lines'))
         g._file.flush()
     except Exception:
         pass
@@ -346,6 +359,15 @@ class C14(Check):
                         u += [{'k': 'hists', 'h': [h]} for h in hs]
                     else:
                         u.append({'k': 'hists', 'h': hs})
+        # the records handed over by ONE writelines() call / by writelines() in blocks of two (short histories)
+        self.bounds['writer_modes'] = {'lines': 'every history', 'bulk, blocks': 'n in 1..4, names alpha'}
+        for n in (1, 2, 3, 4):
+            for vel in (0, 1):
+                for count in COUNTS:
+                    if not (n == 0 and count == 'small'):
+                        u.append({'k': 'hists', 'h': [{'k': 'hist', 'n': n, 'vel': vel, 'count': count, 'box': box,
+                                                       'names': 'alpha', 'wmode': wm}
+                                                      for box in BOXES for wm in ('bulk', 'blocks')]})
         # long histories, crash points at operation granularity only (every record boundary and every step of close):
         # a writer that checkpoints its output every so many records must not leave an acceptable file there
         big = (1500, 2500, 999, 1001) if tier == 'thorough' else (1500,)
@@ -375,8 +397,14 @@ class C14(Check):
             self._shipped(case, R)
 
     def _judge(self, R, desc, image, complete, final, expected, box_offset, sig_prefix, cls, info_only=False,
-               given=None):
+               given=None, must_reject=False):
         verdict, val = given if given is not None else read_image(image)
+        if must_reject and verdict != 'raise':
+            # close() has not even been called on the writer: whatever the path holds, it is "the partial file"
+            R.case(desc, nontrivial=True, outcome='ACCEPTED before close() was called', cls=cls)
+            R.violation(sig_prefix + 'accepted-before-close-was-called', desc,
+                        f'image of {len(image)} chars: {val!r}'[:400] + ' | tail ' + repr(image[-120:]))
+            return verdict
         has_box = bool(complete and len(image) > box_offset and image[:box_offset] == final[:box_offset])
         if info_only:
             R.add('torn_backfill_images')
@@ -405,7 +433,7 @@ class C14(Check):
         n, count, names = case['n'], case['count'], case['names']
         records = records_for(n, case['vel'], names, seed)
         store = seams.FileStore()
-        with seams.patched(P, 'open', store.open):
+        with store.installed(P):
             werr = run_writer('mem.gro', case, records)
         ops = store.ops.get('mem.gro', [])
         final = store.data.get('mem.gro', '')
@@ -419,7 +447,7 @@ class C14(Check):
                 complete = False
         group = 'digit-names/' if names.startswith('digits') else ''
         sigp = f'crash/count-{count}/{group}'
-        cls = f'count-{count}/{names}'
+        cls = f'count-{count}/{names}' + ('/' + case['wmode'] if case.get('wmode') else '')
         only = case.get('img')
         if only is None:
             R.add('histories')
@@ -466,9 +494,9 @@ class C14(Check):
                 with self._path() as path:
                     for k in range(n + 1):
                         verdict, image = read_while_writer_alive(path, case, records, k)
-                        if not (complete and image == final):
-                            self._judge(R, dict(case, img=['alive', k, None]), image, complete, final, expected,
-                                        box_offset, 'read-while-writer-alive/', 'writer-alive/' + cls, given=verdict)
+                        self._judge(R, dict(case, img=['alive', k, None]), image, complete, final, expected,
+                                    box_offset, 'read-while-writer-alive/', 'writer-alive/' + cls, given=verdict,
+                                    must_reject=True)
             if complete and n <= 4:
                 with self._path() as path:
                     for k in range(n + 1):
@@ -494,7 +522,7 @@ class C14(Check):
                 with self._path() as path:
                     verdict, image = read_while_writer_alive(path, case, records, i)
                     self._judge(R, case, image, complete, final, expected, box_offset,
-                                'read-while-writer-alive/', 'writer-alive/' + cls, given=verdict)
+                                'read-while-writer-alive/', 'writer-alive/' + cls, given=verdict, must_reject=True)
             elif kind == 'abandon-over':
                 with self._path() as path:
                     image = abandoned_over_existing(path, case, records, i, final)
